@@ -822,6 +822,12 @@ pub fn run_c11(tier: &Tier, args: &[String]) -> i32 {
 /// must equal the list replies (i.e. nothing is staged and the last write
 /// completed).
 pub fn files_consistent(w: &World, expect_current: bool) -> Vec<(String, String)> {
+    files_consistent_opts(w, expect_current, expect_current)
+}
+
+/// `expect_rsync`: whether the rsync tree must equal the snapshot named by
+/// the notification file (true whenever the last write completed).
+pub fn files_consistent_opts(w: &World, expect_current: bool, expect_rsync: bool) -> Vec<(String, String)> {
     let mut v = Vec::new();
     let notif_bytes = match std::fs::read(rrdp_dir().join("notification.xml")) {
         Ok(b) => b,
@@ -873,6 +879,8 @@ pub fn files_consistent(w: &World, expect_current: bool) -> Vec<(String, String)
         if want != current {
             v.push(("snapshot-content".into(), "snapshot file differs from the server's current content".into()));
         }
+    }
+    if expect_rsync {
         let mut disk: BTreeMap<String, Bytes> = BTreeMap::new();
         fn walk(dir: &Path, rel: &str, out: &mut BTreeMap<String, Bytes>) {
             if let Ok(rd) = std::fs::read_dir(dir) {
@@ -907,8 +915,22 @@ fn publish_one(w: &mut World, name: &str, content: u8) -> Result<(), String> {
 
 /// The follow-up every cut must allow: another publication and a repository
 /// write succeed and leave everything consistent.
-fn next_write_ok(w: &mut World, tag: &str) -> Vec<(String, String)> {
+fn next_write_ok(w: &mut World, tag: &str, wop: WriteOp) -> Vec<(String, String)> {
     let mut v = Vec::new();
+    // first of all the plain retry, with nothing new to publish: the task is
+    // rescheduled / the operator repeats the reset. It must succeed and
+    // leave the RRDP files and the rsync tree agreeing with each other; for
+    // an update also with the server's content (the interrupted update had
+    // already been recorded).
+    if let Err(e) = do_write(w, wop) {
+        v.push(("retry-failed".into(), format!("repeating the interrupted write fails: {}", e.replace('\n', " "))));
+        return v;
+    }
+    let current = matches!(wop, WriteOp::Update);
+    v.extend(files_consistent_opts(w, current, true).into_iter().map(|(k, d)| (k, format!("after a plain retry of the interrupted write: {d}"))));
+    if !v.is_empty() {
+        return v;
+    }
     // first the withdrawal of what the cut write was about: nothing that an
     // interrupted write staged may survive its withdrawal
     let o = w.apply(&Op::PubDelta {
@@ -1063,7 +1085,7 @@ pub fn run_c11_faults(tier: &Tier, out: &mut Outcome) -> serde_json::Value {
                             // only reached in Fail mode: the instance lives on
                             let mut v: Vec<(String, String)> = Vec::new();
                             v.extend(files_consistent(&w2, false));
-                            v.extend(next_write_ok(&mut w2, &tag2));
+                            v.extend(next_write_ok(&mut w2, &tag2, wop));
                             (r.is_ok(), v)
                         });
                         let mut viol: Vec<(String, String)> = Vec::new();
@@ -1077,7 +1099,7 @@ pub fn run_c11_faults(tier: &Tier, out: &mut Outcome) -> serde_json::Value {
                                         Err(e) => v.push(("reopen-failed".into(), e.to_string())),
                                         Ok(mut w3) => {
                                             v.extend(files_consistent(&w3, false));
-                                            v.extend(next_write_ok(&mut w3, &tag3));
+                                            v.extend(next_write_ok(&mut w3, &tag3, wop));
                                         }
                                     }
                                     v
